@@ -276,6 +276,10 @@ def rule_flow(ctx):
                     (c[0] == "cmp" and c[1] == "Eq" and c[4] is True and T.has_call(c[2], "::len") and T.has_call(c[2], "::payload") and T.fold_int(c[3]) == 0) for c in pc)
         untracked_not_tls = any(c[0] == "bool" and c[1][0] == "call" and c[1][1].endswith("is_tls_traffic") and c[2] is False for c in pc)
         lost = any(c[0] in ("variant",) and T.has_call(c[1], "get_mut") and T.has_call(c[1], "ok_or_else") for c in pc) or any(T.has_call(c[1], "ok_or_else") for c in pc if c[0] == "variant")
+        # the same `entry vanished right after insert` exit written as a match: the reader map said None after the insert on this path
+        if iblk in tr:
+            after = set(tr[tr.index(iblk):])
+            lost = lost or any(c[0] == "variant" and T.has_call(c[1], "get_mut") and ((c[2] == "None" and c[3]) or (c[2] == "Some" and not c[3])) and c[4] in after for c in pc)
         if not (empty or untracked_not_tls or lost):
             odd = [c[0] + ":" + T.pp(c[1])[:50] + "=" + str(c[2] if c[0] != "cmp" else (c[1], c[4])) for c in pc if c[0] in ("bool", "cmp")][-3:]
             break
